@@ -216,7 +216,7 @@ CHECKS = {
         design="6/C13",
     ),
     "C10": dict(
-        text=("93 theorems: for all families (ties included) the step-up loop equals the textbook step-up rule "
+        text=("103 theorems: for all families (ties included) the step-up loop equals the textbook step-up rule "
               "(rejection flags, running-min adjusted p-values, adjusted alphas), the step-down loop equals Holm's rule; "
               "flagged rejected iff pvalue <= alpha_adj, and iff pvalue_adj <= alpha (exact arithmetic); adjusted "
               "p-values in [pvalue,1] and order-preserving; the GENERATED Benjamini/Bonferroni adjust functions give "
@@ -225,7 +225,10 @@ CHECKS = {
               "real power x**y, proved for Real.rpow in Props/C10Real.lean; ORDER INDEPENDENCE (Props/C10Order.lean): in both loops any "
               "two hypotheses with equal p-values get the same pvalue_adj and flag, and for the whole procedure incl. the "
               "stable sort and the write-back by input position, permuting the input p-values permutes pvalue_adj and "
-              "null_rejected with them, instantiated for all six generated procedures; alpha_adj order-dependent at ties (K2 witness). Tie: translator for "
+              "null_rejected with them, instantiated for all six generated procedures; FAMILY (Model/Family.lean, "
+              "Props/C10Family.lean): the family is exactly the selected metric results over all experiments, m its size, "
+              "a one-name selection selects exactly that name, reordering experiments or metrics permutes the family, every "
+              "output is written back to the hypothesis it was computed for; alpha_adj order-dependent at ties (K2 witness). Tie: translator for "
               "adjust + exact correspondence of the hand-modelled loops on Fraction p-values; search vs textbook spec."),
         note=NOTE_COMMON + "The two loops are GENERATED too (Gen/MultLoops.lean: step function, initial state, enumerate start, "
              "sort direction) and the model's loops are proved equal to them (Props/C10Gen.lean); the stable sort, the write-back "
